@@ -18,14 +18,16 @@ Definition sf_ev_status (e : SF.ev vec float vec) : option exn :=
 
 Section Wf.
   Context {E : Type} (st : E -> option exn).
+  Variable internal : exn -> Prop.      (* exceptions the package itself raises (argument validation) *)
   Definition all_ok (t : list E) : Prop := Forall (fun e => st e = None) t.
   (* well-formed computation: events are successful calls, except that a raising call is the last event
-     and its exception is the outcome *)
+     and its exception is the outcome; the only other exceptions are the package's own, raised when no
+     user call has failed *)
   Definition wf {A} (m : M E A) : Prop :=
     match m with
     | (Ok _, t) => all_ok t
     | (OutOfFuel, t) => all_ok t
-    | (Raise e, t) => exists t0 ev, t = t0 ++ [ev] /\ all_ok t0 /\ st ev = Some e
+    | (Raise e, t) => (exists t0 ev, t = t0 ++ [ev] /\ all_ok t0 /\ st ev = Some e) \/ (all_ok t /\ internal e)
     end.
 
   Lemma all_ok_app a b : all_ok a -> all_ok b -> all_ok (a ++ b).
@@ -34,11 +36,14 @@ Section Wf.
   Lemma wf_ret {A} (a : A) : wf (ret a).
   Proof. cbn. constructor. Qed.
 
+  Lemma wf_raise {A} e : internal e -> wf (A := A) (raise e).
+  Proof. intros H. cbn. right. split; [constructor|exact H]. Qed.
+
   Lemma wf_call {A} (r : res A) (ev : E) : st ev = status r -> r <> OutOfFuel -> wf (call r ev).
   Proof.
     intros H Hn. unfold call, wf. destruct r as [a|e|]; cbn in H.
     - constructor; [exact H|constructor].
-    - exists [], ev. repeat split; [constructor|exact H].
+    - left. exists [], ev. repeat split; [constructor|exact H].
     - congruence.
   Qed.
 
@@ -47,7 +52,9 @@ Section Wf.
     intros Hm Hf. unfold bind. destruct m as [[a|e|] t]; cbn in Hm.
     - specialize (Hf a). destruct (f a) as [[b|e|] t2]; cbn in *.
       + apply all_ok_app; auto.
-      + destruct Hf as (t0 & ev & -> & H1 & H2). exists (t ++ t0), ev. rewrite app_assoc. repeat split; auto. apply all_ok_app; auto.
+      + destruct Hf as [(t0 & ev & -> & H1 & H2)|[H1 H2]].
+        * left. exists (t ++ t0), ev. rewrite app_assoc. repeat split; auto. apply all_ok_app; auto.
+        * right. split; auto. apply all_ok_app; auto.
       + apply all_ok_app; auto.
     - exact Hm.
     - exact Hm.
@@ -55,16 +62,39 @@ Section Wf.
 
   Lemma wf_fuel {A} : wf (A := A) (OutOfFuel, []).
   Proof. cbn. constructor. Qed.
+
+  (* the user-facing reading: a failing call is the last thing that happened and its exception is the outcome *)
+  Lemma wf_failing_call_is_last {A} (m : M E A) : wf m ->
+    forall t0 ev t1 e, snd m = t0 ++ ev :: t1 -> st ev = Some e -> t1 = [] /\ fst m = Raise e.
+  Proof.
+    intros W t0 ev t1 e Ht He.
+    assert (Hno : forall t, all_ok t -> t = t0 ++ ev :: t1 -> False).
+    { intros t Ha ->. unfold all_ok in Ha. rewrite Forall_forall in Ha.
+      assert (Hin : In ev (t0 ++ ev :: t1)) by (apply in_or_app; right; left; reflexivity).
+      specialize (Ha ev Hin). congruence. }
+    destruct m as [[a|e'|] t]; cbn in *.
+    - exfalso; eauto.
+    - destruct W as [(u0 & ev' & -> & H1 & H2)|[H1 _]]; [|exfalso; eauto].
+      destruct t1 as [|y t1'].
+      + apply app_inj_tail in Ht as [-> ->]. split; auto. congruence.
+      + exfalso. assert (Hin : In ev u0).
+        { assert (H3 : u0 ++ [ev'] = (t0 ++ ev :: removelast (y :: t1')) ++ [last (y :: t1') y]).
+          { rewrite Ht. rewrite <- app_assoc. cbn [app]. f_equal. f_equal. apply app_removelast_last. discriminate. }
+          apply app_inj_tail in H3 as [-> _]. apply in_or_app. right. left. reflexivity. }
+        unfold all_ok in H1. rewrite Forall_forall in H1. specialize (H1 _ Hin). congruence.
+    - exfalso; eauto.
+  Qed.
 End Wf.
 
-Lemma wf_lift {A} (m : M (SF.ev vec float vec) A) : wf sf_ev_status m -> wf ev_status (lift sfev m).
+Lemma wf_lift internal {A} (m : M (SF.ev vec float vec) A) : wf sf_ev_status internal m -> wf ev_status internal (lift sfev m).
 Proof.
   assert (Hs : forall e, ev_status (sfev e) = sf_ev_status e) by (intros [p r|p r]; reflexivity).
   assert (Ha : forall t, all_ok sf_ev_status t -> all_ok ev_status (map sfev t)).
   { unfold all_ok. intros t H. induction H; cbn; constructor; auto. now rewrite Hs. }
   unfold lift. destruct m as [[a|e|] t]; cbn; intros H; auto.
-  destruct H as (t0 & ev & -> & H1 & H2). exists (map sfev t0), (sfev ev). rewrite map_app. cbn.
-  repeat split; auto. now rewrite Hs.
+  destruct H as [(t0 & ev & -> & H1 & H2)|[H1 H2]].
+  - left. exists (map sfev t0), (sfev ev). rewrite map_app. cbn. repeat split; auto. now rewrite Hs.
+  - right. split; auto.
 Qed.
 
 Section DriverWf.
@@ -82,7 +112,8 @@ Section DriverWf.
   Hypothesis ft_total : u_ftarget U <> OutOfFuel.
   Hypothesis gt_total : u_gtol U <> OutOfFuel.
 
-  Notation W := (wf sf_ev_status).
+  Definition internal (e : exn) : Prop := e = ck_mismatch \/ bounds_error c = Some e.
+  Notation W := (wf sf_ev_status internal).
   Notation sfst := (SF.st vec float vec float).
 
   Lemma wf_update_fun (t : sfst) : W (SF.update_fun vec float vec float (uf U) t).
@@ -109,22 +140,22 @@ Section DriverWf.
     - apply wf_bind; [unfold SF.call_g; apply wf_call; [reflexivity|apply ug_total]|intros; apply wf_ret].
   Qed.
 
-  Lemma wf_sf_fun p t : wf ev_status (sf_fun U p t).
+  Lemma wf_sf_fun p t : wf ev_status internal (sf_fun U p t).
   Proof.
     unfold sf_fun. apply wf_lift. unfold SF.sf_fun. apply wf_bind; [apply wf_update_fun|]. intros [v t1]. apply wf_ret.
   Qed.
-  Lemma wf_sf_grad p t : wf ev_status (sf_grad U p t).
+  Lemma wf_sf_grad p t : wf ev_status internal (sf_grad U p t).
   Proof.
     unfold sf_grad. apply wf_lift. unfold SF.sf_grad. apply wf_bind; [apply wf_update_grad|]. intros [v t1]. apply wf_ret.
   Qed.
-  Lemma wf_sf_fun_and_grad p t : wf ev_status (sf_fun_and_grad U p t).
+  Lemma wf_sf_fun_and_grad p t : wf ev_status internal (sf_fun_and_grad U p t).
   Proof.
     unfold sf_fun_and_grad. apply wf_lift. unfold SF.sf_fun_and_grad.
     apply wf_bind; [apply wf_update_fun|]. intros [v t1].
     apply wf_bind; [apply wf_update_grad|]. intros [g t2]. apply wf_ret.
   Qed.
 
-  Notation WD := (wf ev_status).
+  Notation WD := (wf ev_status internal).
 
   Lemma wf_ls_loop n xk d par s : WD (ls_loop U K c n xk d par s).
   Proof.
@@ -139,21 +170,24 @@ Section DriverWf.
     destruct (negb _ || _); [apply wf_ret|]. destruct (l_task s); apply wf_ret.
   Qed.
 
+  Lemma wf_accept_step ft s a d t1 : WD (accept_step U K c ft s a d t1).
+  Proof.
+    unfold accept_step. apply wf_bind; [apply wf_sf_fun_and_grad|]. intros [[f0 g] t2].
+    apply wf_bind.
+    - destruct (u_upd U) as [u|] eqn:Eu; [|apply wf_ret].
+      apply wf_bind; [apply wf_call; [reflexivity|eapply upd_total; eauto]|]. intros [[[a1 a2] a3] a4]. apply wf_ret.
+    - intros [[[[f1 fo] g1] G1] filt].
+      destruct (is_f0_target_reached _ _); [apply wf_ret|].
+      destruct (is_f0_min_change_reached _ _ _); [apply wf_ret|].
+      destruct (if filt then _ else _) as [X1 G2]. destruct (update_mem K c _ _ _ _ _) as [[X2 G3] m2].
+      destruct (u_cb U) as [cb|] eqn:Ec; [|apply wf_ret].
+      apply wf_bind; [apply wf_call; [reflexivity|eapply cb_total; eauto]|]. intros b. destruct b; apply wf_ret.
+  Qed.
+
   Lemma wf_body ft s : WD (body U K c ft s).
   Proof.
     unfold body. apply wf_bind; [apply wf_line_search|]. intros [stp t1].
-    destruct stp as [a|].
-    - apply wf_bind; [apply wf_sf_fun_and_grad|]. intros [[f0 g] t2].
-      apply wf_bind.
-      + destruct (u_upd U) as [u|] eqn:Eu; [|apply wf_ret].
-        apply wf_bind; [apply wf_call; [reflexivity|eapply upd_total; eauto]|]. intros [[[a1 a2] a3] a4]. apply wf_ret.
-      + intros [[[[f1 fo] g1] G1] filt].
-        destruct (is_f0_target_reached _ _); [apply wf_ret|].
-        destruct (is_f0_min_change_reached _ _ _); [apply wf_ret|].
-        destruct (if filt then _ else _) as [X1 G2]. destruct (update_mem K c _ _ _ _ _) as [[X2 G3] m2].
-        destruct (u_cb U) as [cb|] eqn:Ec; [|apply wf_ret].
-        apply wf_bind; [apply wf_call; [reflexivity|eapply cb_total; eauto]|]. intros b. destruct b; apply wf_ret.
-    - destruct (_ =? _)%nat; apply wf_ret.
+    destruct stp as [a|]; [apply wf_accept_step|apply wf_ret].
   Qed.
 
   Lemma wf_loop fuel ft gt s : WD (loop U K c fuel ft gt s).
@@ -164,7 +198,9 @@ Section DriverWf.
 
   Theorem wf_run : WD (run U K c).
   Proof.
-    unfold run. destruct (match checkpoint c with None => _ | Some ck => restore c ck end) as [X G].
+    unfold run. destruct (bounds_error c) as [e|] eqn:Eb; [apply wf_raise; right; exact Eb|].
+    destruct (ck_ok c _); [|apply wf_raise; left; reflexivity].
+    unfold run_checked. destruct (match checkpoint c with None => _ | Some ck => restore c ck end) as [X G].
     apply wf_bind. { destruct (checkpoint c); [apply wf_ret|apply wf_sf_fun]. }
     intros [f0 t1].
     apply wf_bind.
